@@ -20,6 +20,14 @@ def _regen_boc_parser():
     from ..translate import boccells
     return boccells.regenerate()
 
+def _regen_boc_emitter():
+    from ..translate import bocemit
+    return bocemit.regenerate_tied()
+
+def _emit_tie_name():
+    from ..translate import bocemit
+    return bocemit.TIE_NAME
+
 
 SPEC = dict(
     manifest=dict(
@@ -66,7 +74,13 @@ SPEC = dict(
              'SOURCE TIE of the BoC parser (c19_src_parse, c19_src_loop_iterations): the three loops of Boc.deserialize, deserialize_cell and the header parser are regenerated from '
              'deserialize.py on every run as Py.loop? folds over range(cells_num), reversed(range(cells_num)), root_list (one body execution per element at most) and proved equal to '
              'Model/BocParse.lean, whose recursions Model/Cost.lean transcribes as counters; that the COUNTERS of bocCost equal the iteration counts of the regenerated loops is not proved. '
-             'model computes (c19_src_tl_vector_guard, c19_src_tl_bytes_skip).',
+             'model computes (c19_src_tl_vector_guard, c19_src_tl_bytes_skip). '
+             'SOURCE TIE of the EMITTER loops: Cell.order / to_boc / serialize are regenerated from cell.py on every run (Generated/BocEmitSrc.lean); c19_src_order_linear: on EVERY DAG of cell '
+             'objects (n distinct cells, e references, any sharing; local no-collision hypothesis) the REGENERATED while stack: loop ends within 1+n+e iterations (budget 1+n+e+1 suffices, '
+             'c19_src_while_iterations reads the budget) and returns a valid order - a potential argument over the regenerated loop itself (Proofs/SrcOrderAny.lean), for either push order of the '
+             'references; c19_src_serialize_poly (partial): with that budget the regenerated to_boc is the lookup + layout of exactly n keys carrying e references and the steps counted per loop '
+             '(while, re-insertion, comprehension, serialize + references, index, CRC bytes) are <= 5(n+e)+1+len(output); the for-loops are counted by the lengths of the lists they iterate (read off '
+             'the proved equality with the layout model), not by an instrumented translation.',
         level_note='Trusted: Lean kernel (propext, Classical.choice, Quot.sound); Model/Cost.lean as a hand transcription of the loops of '
                    'cell.py (order, to_boc, __init__/calculate_hashes), deserialize.py, hashmap/parse.py, tl/generator.py (upper-bound '
                    'convention: validity failures that only cut work short are not modelled); harness/translate/tl_cost.py + TlEnv (the bundled '
@@ -78,8 +92,9 @@ SPEC = dict(
     ),
     translators=[('bundled tl schemas->Generated/TlCostTable.lean', _regen_tl_cost_table),
                  ('tl/generator.py bytes framing + vector guard->Generated/TlFraming.lean', arith2.regenerator('TlFraming')),
-                 ('deserialize.py deserialize_boc_header, deserialize_cell, deserialize->Generated/BocHeader.lean, BocCells.lean', _regen_boc_parser)],
-    lean_targets=['TonVerif.Proofs.SrcBocDeser'],
+                 ('deserialize.py deserialize_boc_header, deserialize_cell, deserialize->Generated/BocHeader.lean, BocCells.lean', _regen_boc_parser),
+                 (_emit_tie_name(), _regen_boc_emitter)],
+    lean_targets=['TonVerif.Proofs.SrcBocDeser', 'TonVerif.Proofs.SrcOrderAny', 'TonVerif.Proofs.SrcBocAny'],
     design_ref='DESIGN.md §6 C19',
     rule='one case = one public call on one adversarial input with its model step count; families: double/triple-ref chains 10..1000, '
          'depth-1023 chains, diamonds, wide sharing, random DAGs (order, to_boc x flag sets, from_boc, construction); BoC byte strings '
@@ -325,7 +340,13 @@ def check_dag(ctx, nodes, tag, flagsets=('000', '111')):
         return
     got = '.'.join(str(idx[c.hash]) for c in m.result)
     if got != post:
-        ctx.corr_broken(f'cost model order != library order on {tag}: model {post[:80]} library {got[:80]}')
+        from ..translate import bocemit
+        if bocemit.valid_order_only(ctx) and sorted(got.split('.')) == sorted(post.split('.')):
+            # the source visits the references in another order than the cost model; c19_src_order_linear is proved about the
+            # regenerated loop for either order and the step counts (n, e) do not depend on it
+            ctx.count('order-differs-from-cost-model-same-cells')
+        else:
+            ctx.corr_broken(f'cost model order != library order on {tag}: model {post[:80]} library {got[:80]}')
     # to_boc
     bocs = {}
     for fl, a in zip(flagsets, ans[1:]):
@@ -1018,6 +1039,22 @@ def src_search(ctx):
     well-formed and damaged objects.  True = a concrete failing input was found."""
     arith2.search_points(ctx, ['TlFraming'])
     n0 = len(ctx.failures)
+    # the emitter's loops (c19_src_order_linear / c19_src_serialize_poly): Lean compares the regenerated Cell.order / to_boc with the
+    # hand model on boundary DAGs; the differing DAGs are measured first (work of order / to_boc against the cost model)
+    try:
+        from ..translate import bocemit
+        cases = [c for c in bocemit.validation_dags() if len(c[1]) <= bocemit.BIG]
+        found, _ = bocemit.diff_inputs(ctx, cases)
+        first = [(t, n, r) for t, n, r, _ in found]
+        for tag, nodes, root in (first + [c for c in cases if c[0] not in {t for t, _, _ in first}])[:25]:
+            if root == len(nodes) - 1 and all(k == G.ORD for k, _, _ in nodes):
+                check_dag(ctx, [(k, b, tuple(r)) for k, b, r in nodes], 'src-' + tag)
+            if len(ctx.failures) > n0:
+                return True
+    except Exception as e:
+        if type(e).__name__ == 'MachineryError':
+            raise
+        ctx.notes.append(f'emitter source-diff search failed: {type(e).__name__}: {e}')
     rng = ctx.rng
     env = TlEnv()
     fixed = f16_probe(ctx, env)
